@@ -347,6 +347,15 @@ def check_pair(acc, pendulum, loc, ia, ib, use_global):
         ok = acceptable(d, comps, False, future, absolute)
         if ok and r not in ok:
             acc.mismatch("diff_for_humans", f"{loc}/{'global-locale/' if use_global else ''}phrase", case, r, sorted(ok))
+    # the same two wall clocks as NAIVE values (receiver and reference both without a zone)
+    na, nb = pendulum.DateTime(*seeds.fields_of_wall(ia)), pendulum.DateTime(*seeds.fields_of_wall(ib))
+    for absolute in (False, True):
+        case = {"kind": "pair", "loc": loc, "ia": ia, "ib": ib, "abs": absolute, "global": use_global, "naive": True}
+        r = basic(acc, "diff_for_humans", f"{loc}/naive-pair", case, lambda: na.diff_for_humans(nb, absolute, locale=loc))
+        if r is not None:
+            ok = acceptable(d, comps, False, future, absolute)
+            if ok and r not in ok:
+                acc.mismatch("diff_for_humans", f"{loc}/naive-pair/phrase", case, r, sorted(ok))
     # Interval.in_words() of the same pair (components from the independent decomposition, sign of the direction)
     for iv_name, mk in (("b-a", lambda: b - a), ("a-b", lambda: a - b), ("diff", lambda: a.diff(b))):
         case = {"kind": "pair", "loc": loc, "ia": ia, "ib": ib, "global": use_global, "interval": iv_name}
